@@ -134,7 +134,7 @@ pub fn cov(cfg: &mut Cfg, rep: &mut Report) {
     let al2 = [-3.0f64, -0.5, 0.0, 1.0, 2.25, 7.75];
     let dims: Vec<(usize, usize)> = if cfg.thorough { vec![(3, 4), (4, 5), (5, 16), (8, 64), (2, 33), (6, 7)] } else { vec![(3, 4), (4, 9), (2, 17)] };
     for (nv, no) in dims {
-        for _ in 0..(if cfg.thorough { 30 } else { 8 }) {
+        for _ in 0..(if cfg.thorough { 300 } else { 8 }) {
             let data: Vec<f64> = (0..nv * no).map(|_| al2[rng.below(al2.len())]).collect();
             check_case(cfg, rep, "sampled", nv, no, &data);
             if rep.stop { return; }
@@ -142,7 +142,7 @@ pub fn cov(cfg: &mut Cfg, rep: &mut Report) {
     }
     for base in [1e6f64, 1e8] {
         for (nv, no) in [(2usize, 3usize), (3, 5)] {
-            for _ in 0..(if cfg.thorough { 10 } else { 3 }) {
+            for _ in 0..(if cfg.thorough { 100 } else { 3 }) {
                 let data: Vec<f64> = (0..nv * no).map(|_| base + [0.0, 1.0, 3.0, 4.5, 0.25][rng.below(5)]).collect();
                 check_case(cfg, rep, "large_mean", nv, no, &data);
                 if rep.stop { return; }
